@@ -70,6 +70,10 @@ func suiteIndexScan(c *Ctx) error {
 			p.Funcs = append(p.Funcs, &GFunc{Name: fmt.Sprintf("Twin%c", 'A'+k), Family: "same-hash-twin", Params: []GParam{{"x", TInt}}, Results: []GType{TStr},
 				Body: []GStmt{SRaw{fmt.Sprintf("if §x§ > 1 {\n\treturn %q\n}\nreturn %q", lits[0], lits[1])}}})
 		}
+		// string literals that are themselves quoted text (a command line, a JSON fragment, a path with
+		// escaped backslashes): whatever the indexer stores as a pattern has to be found again in the literal
+		p.Funcs = append(p.Funcs, &GFunc{Name: "QuotedLiterals", Family: "quoted-literals", Params: []GParam{{"x", TInt}}, Results: []GType{TStr},
+			Body: []GStmt{SRaw{"§cmd§ := \"\\\"C:\\\\\\\\ProgramData\\\\\\\\agent\\\\\\\\run.exe\\\"\"\n§cfg§ := \"'{\\\"k\\\":\\\"v\\\\n\\\"}'\"\nif §x§ > 2 {\n\treturn §cmd§ + \"--serve\"\n}\nreturn §cfg§ + \"`tick`\""}}})
 		// a function that calls, defers and starts closures with NAMED results (renamed by the variants)
 		p.Funcs = append(p.Funcs, &GFunc{Name: "NamedResults", Family: "closure-named-results", Closures: 3, Params: []GParam{{"x", TInt}}, Results: []GType{TInt},
 			Body: []GStmt{SRaw{"§get§ := func() (§val§ int, §err§ error) {\n\treturn §x§ + 1, nil\n}\n§v§, _ := §get§()\ndefer func() (§code§ int, §msg§ string) {\n\treturn §v§, \"done\"\n}()\ngo func() (§a§ int, §b§ int) {\n\treturn §v§, §x§\n}()\nreturn §v§"}}})
